@@ -1,0 +1,27 @@
+//go:build verif
+
+package store
+
+import (
+	"github.com/andres-erbsen/clock"
+	"github.com/uber-go/tally"
+)
+
+// Test-only seams for the C05 crash-recovery monitor (/verif/harness/c05).
+// Inert without the `verif` build tag. Wrappers only.
+
+// VerifC05NewCAStore is newCAStore: a CAStore on an injected clock (with a mock
+// clock the background drain / TTL tickers never fire, so the monitor can run
+// every file-system mutation on one thread).
+func VerifC05NewCAStore(config CAStoreConfig, stats tally.Scope, clk clock.Clock) (*CAStore, error) {
+	return newCAStore(config, stats, clk)
+}
+
+// VerifC05DrainNext runs one drain step, exactly what a drain worker does on
+// one tick. No-op when the memory cache is disabled.
+func (s *CAStore) VerifC05DrainNext() {
+	if s.drain == nil {
+		return
+	}
+	s.drainNext()
+}
